@@ -8,6 +8,7 @@ import (
 	"fmt"
 	"go/types"
 	"math/big"
+	"strings"
 )
 
 var vpExternals = map[string]externalFn{}
@@ -375,7 +376,7 @@ func (i *interpreter) hashUF(name string, bytes []value) []value {
 	}
 	// different lengths / names never collide either
 	for other, apps := range i.p.ufApps {
-		if other == fname {
+		if other == fname || !strings.HasPrefix(other, "H_") {
 			continue
 		}
 		for _, prev := range apps {
